@@ -6,6 +6,7 @@ import (
 	"math/rand"
 	"runtime/debug"
 	"sync"
+	"os"
 	"sync/atomic"
 	"testing"
 	"testing/synctest"
@@ -43,6 +44,10 @@ type relay struct {
 	victim  string
 	stale   int    // a queued packet no longer had the bytes it had when it was sent
 	faults  int    // a queued reply could not be read any more (its memory was unmapped)
+	// send-fault injection (mode "sendfault"): the consumer's face refuses to send chosen Interests (Send returns an error)
+	sfTarget int // 0 metadata Interest, 1 first segment, 2 a mid-stream segment
+	sfBudget int // number of refusals left (huge = permanent)
+	sendErrs int
 	starve  string // name prefix (String form): segment Interests >= 1 under it are always lost
 }
 
@@ -87,11 +92,31 @@ func (f *relayFace) Send(pkt enc.Wire) error {
 	if kind == "D" && len(name) >= 3 && isMetaName(name) {
 		key = name[:len(name)-2].String() // the metadata Interest is a prefix of the Data name
 	}
+	if rl.mode == "sendfault" && kind == "I" && len(name) > 0 && rl.sfBudget > 0 {
+		last := name[len(name)-1]
+		hit := false
+		switch rl.sfTarget {
+		case 0:
+			hit = last.Typ == enc.TypeKeywordNameComponent
+		case 1:
+			hit = last.Typ == enc.TypeSegmentNameComponent && last.NumberVal() == 0
+		default:
+			hit = last.Typ == enc.TypeSegmentNameComponent && last.NumberVal() == 1
+		}
+		if hit {
+			rl.sfBudget--
+			rl.sendErrs++
+			rl.mu.Unlock()
+			return fmt.Errorf("write unix: broken pipe")
+		}
+	}
 	var delays []time.Duration
 	rl.seq++
 	jitter := time.Duration(rl.r.Intn(40000))*time.Microsecond + time.Duration(rl.seq)*time.Nanosecond
 	base := time.Millisecond + jitter
 	switch rl.mode {
+	case "sendfault":
+		delays = []time.Duration{base}
 	case "starve":
 		lost := false
 		if kind == "I" && len(name) >= 2 && name[len(name)-1].Typ == enc.TypeSegmentNameComponent &&
@@ -157,6 +182,16 @@ func (f *relayFace) Send(pkt enc.Wire) error {
 	return nil
 }
 
+// what the current end-to-end case is doing (for the watchdog's report)
+var e2eNow sync.Mutex
+var e2eDoing string
+
+func doing(format string, a ...any) {
+	e2eNow.Lock()
+	e2eDoing = fmt.Sprintf(format, a...)
+	e2eNow.Unlock()
+}
+
 type cbObs struct {
 	complete int
 	err      string
@@ -170,13 +205,42 @@ func TestE2ETrace(t *testing.T) {
 	n := envInt("VERIF_N", 12)
 	o := newOut()
 	defer o.close()
+	// progress watchdog on the wall clock, outside the synctest bubbles: a case normally takes milliseconds (all waiting is
+	// virtual time); if one does not finish, some goroutine of the code under test is stuck in a way virtual time
+	// cannot resolve — report what the case was doing and stop at once instead of waiting for the test timeout
+	var progress atomic.Int64
+	stopWatch := make(chan struct{})
+	go func() {
+		last, lastChange := int64(-1), time.Now()
+		for {
+			select {
+			case <-stopWatch:
+				return
+			case <-time.After(500 * time.Millisecond):
+			}
+			if p := progress.Load(); p != last {
+				last, lastChange = p, time.Now()
+			} else if time.Since(lastChange) > 10*time.Second {
+				e2eNow.Lock()
+				what := e2eDoing
+				e2eNow.Unlock()
+				o.pf("HANG case %d made no progress for 10 s of wall time while: %s\n", last+1, what)
+				o.pf("END\n")
+				o.close()
+				fmt.Fprintln(os.Stderr, "HANG in e2e case", last+1, what)
+				os.Exit(0)
+			}
+		}
+	}()
 	for i := 0; i < n; i++ {
 		seed := r.Int63()
 		synctest.Test(t, func(t *testing.T) {
 			runE2ECase(t, o, rand.New(rand.NewSource(seed)))
 		})
 		o.flush()
+		progress.Add(1)
 	}
+	close(stopWatch)
 }
 
 func runE2ECase(t *testing.T, o *out, r *rand.Rand) {
@@ -266,13 +330,21 @@ func runE2ECase(t *testing.T, o *out, r *rand.Rand) {
 			}
 		}
 		rl.mu.Lock()
-		switch x := r.Intn(10); {
+		switch x := r.Intn(12); {
 		case x < 3:
 			rl.mode = "none"
 		case x < 9:
 			rl.mode = "budget"
-		default:
+		case x < 10:
 			rl.mode = "blackhole"
+		default:
+			rl.mode = "sendfault"
+			rl.sfTarget = r.Intn(3)
+			rl.sfBudget = 1 + r.Intn(2)
+			if r.Intn(2) == 0 {
+				rl.sfBudget = 1 << 30
+			}
+			rl.sendErrs = 0
 		}
 		rl.drops = map[string]int{}
 		rl.dropped, rl.late, rl.dups, rl.victim = 0, 0, 0, ""
@@ -289,6 +361,7 @@ func runE2ECase(t *testing.T, o *out, r *rand.Rand) {
 		if r.Intn(3) == 0 {
 			pol = "atend"
 		}
+		doing("consumer of %s waiting for its completion (relay mode %s, store %s)", cname, mode, kind)
 		var mu sync.Mutex
 		var obs []cbObs
 		done := make(chan struct{}, 64)
@@ -343,7 +416,8 @@ func runE2ECase(t *testing.T, o *out, r *rand.Rand) {
 		mu.Unlock()
 		time.Sleep(60 * time.Second) // virtual: anything still in flight is delivered or times out
 		rl.mu.Lock()
-		o.pf("CONSUME %s %s %s %d %d %d\n", nameStr(cname), pol, mode, rl.dropped, rl.late, rl.dups)
+		o.pf("CONSUME %s %s %s %d %d %d\n", nameStr(cname), pol, mode, rl.dropped+rl.sendErrs, rl.late, rl.dups)
+		rl.sendErrs = 0
 		rl.mu.Unlock()
 		mu.Lock()
 		for i, ob := range obs {
@@ -356,6 +430,8 @@ func runE2ECase(t *testing.T, o *out, r *rand.Rand) {
 		runE2EConcurrent(o, r, rl, prod, cons, name)
 	}
 	o.pf("END\n")
+	o.flush()
+	doing("stopping the consumer client (its run loop must take the stop signal)")
 	cons.Stop()
 	prod.Stop()
 	engC.Stop()
@@ -413,6 +489,7 @@ func runE2EConcurrent(o *out, r *rand.Rand, rl *relay, prod, cons *object.Client
 			return true
 		})
 	}
+	doing("two concurrent consumers: %s (starved) and %s", bigV, smallName)
 	a, b := mk(bigV), mk(smallName)
 	start(a)
 	time.Sleep(500 * time.Millisecond) // virtual: A's first segment is in and its Interests occupy the window
